@@ -154,7 +154,7 @@ class Slice(Unit):
     def call(self, a):
         sig = a["sig"]
         from pbsym.tarr import TArr
-        mk = (lambda x: SymSlice(*x)) if isinstance(sig.data, TArr) else (lambda x: slice(*x))
+        mk = (lambda x: SymSlice(*x, force=True)) if isinstance(sig.data, TArr) else (lambda x: slice(*x))
         outs = []
         cur = sig
         for t in a["idx"]:
